@@ -104,7 +104,7 @@ def dead_call(b, c):
 def _function_signature(b):
     from sigtools import signatures
     from vlib import expect
-    if b.prog['route'] in ('self_method', 'self_attr', 'classmethod_cls', 'self_shadow_nested'):
+    if b.prog['route'] in ('self_method', 'self_attr', 'self_attr_store', 'classmethod_cls', 'self_shadow_nested'):
         return signatures.signature(b.target.__func__)
     if b.prog['route'] in ('param', 'param_shadow_lambda', 'param_shadow_kwonly', 'param_default'):
         return signatures.signature(b.target.func)
@@ -142,7 +142,7 @@ def calls_role_inconsistent(b):
     from sigtools import signatures
     from vlib import expect
     try:
-        if b.prog['route'] in ('self_method', 'self_attr', 'classmethod_cls', 'self_shadow_nested'):
+        if b.prog['route'] in ('self_method', 'self_attr', 'self_attr_store', 'classmethod_cls', 'self_shadow_nested'):
             fsig = signatures.signature(b.target.__func__)
         elif b.prog['route'] in ('param', 'param_shadow_lambda', 'param_shadow_kwonly', 'param_default'):
             fsig = signatures.signature(b.target.func)
